@@ -23,5 +23,7 @@ def run(ctx):
         allow = ('many',) if g.r.random() < 0.15 else (('big',) if g.r.random() < 0.08 else ())
         spec = cw.make_spec(g, allow)
         worlds.append(cw.render('c10-%d' % i, spec, ORACLES))
+    for k, (mode, srt) in enumerate([((False, ''), '-'), ((False, 'clean'), '0'), ((False, ''), '1')]):
+        worlds.append(cw.render('c10-big-%d' % k, cw.big_clean_spec(g, mode, srt), ORACLES))
     run_suite(ctx, 'clean.C10', worlds, known=known, chunk=200)
     findings.report(ctx, 'C10')
